@@ -17,45 +17,46 @@ Local Open Scope nat_scope.
 
 Section WithTok.
   Variable qtok : Q -> str.
+  Variable reo : option (list (list Q)).
 
-  Definition to_members (e : jext) : CS.obj := base_members e ++ header_members qtok (hdr_of e).
+  Definition to_members_r (e : jext) : CS.obj := base_members e ++ header_members_r qtok reo (hdr_of e).
 
-  Lemma to_content_members e : to_content qtok e = JObj (to_members e).
+  Lemma to_content_members_r e : to_content_r qtok reo e = JObj (to_members_r e).
   Proof. reflexivity. Qed.
 
   (** ** Looking things up in the content *)
 
-  Lemma jassoc_shape e : jassoc PV.K_shape (to_members e) = Some (shape_jv (shape (hdr_of e))).
-  Proof. unfold to_members, base_members. destruct (has_time _), (has_vec _); reflexivity. Qed.
-  Lemma jassoc_affine e : jassoc PV.K_affine (to_members e) = Some (aff_jv qtok (aff (hdr_of e))).
-  Proof. unfold to_members, base_members. destruct (has_time _), (has_vec _); reflexivity. Qed.
-  Lemma jassoc_slice_dim e : jassoc PV.K_slice_dim (to_members e) = Some (sdim_jv (sdim (hdr_of e))).
-  Proof. unfold to_members, base_members. destruct (has_time _), (has_vec _); reflexivity. Qed.
-  Lemma jassoc_version e : jassoc PV.K_version (to_members e) = Some version_jv.
-  Proof. unfold to_members, base_members. destruct (has_time _), (has_vec _); reflexivity. Qed.
-  Lemma jassoc_reorient e : jassoc K_reorient (to_members e) = Some JNull.
-  Proof. unfold to_members, base_members. destruct (has_time _), (has_vec _); reflexivity. Qed.
+  Lemma jassoc_shape e : jassoc PV.K_shape (to_members_r e) = Some (shape_jv (shape (hdr_of e))).
+  Proof. unfold to_members_r, base_members. destruct (has_time _), (has_vec _); reflexivity. Qed.
+  Lemma jassoc_affine e : jassoc PV.K_affine (to_members_r e) = Some (aff_jv qtok (aff (hdr_of e))).
+  Proof. unfold to_members_r, base_members. destruct (has_time _), (has_vec _); reflexivity. Qed.
+  Lemma jassoc_slice_dim e : jassoc PV.K_slice_dim (to_members_r e) = Some (sdim_jv (sdim (hdr_of e))).
+  Proof. unfold to_members_r, base_members. destruct (has_time _), (has_vec _); reflexivity. Qed.
+  Lemma jassoc_version e : jassoc PV.K_version (to_members_r e) = Some version_jv.
+  Proof. unfold to_members_r, base_members. destruct (has_time _), (has_vec _); reflexivity. Qed.
+  Lemma jassoc_reorient e : jassoc K_reorient (to_members_r e) = Some (reo_jv qtok reo).
+  Proof. unfold to_members_r, base_members. destruct (has_time _), (has_vec _); reflexivity. Qed.
 
-  Lemma jassoc_base e b :
-    jassoc (name_of_base b) (to_members e) = if has_base (hdr_of e) b then Some (base_jv e b) else None.
+  Lemma jassoc_base_r e b :
+    jassoc (name_of_base b) (to_members_r e) = if has_base (hdr_of e) b then Some (base_jv e b) else None.
   Proof.
-    unfold to_members, base_members, has_base. destruct b, (has_time _), (has_vec _); reflexivity.
+    unfold to_members_r, base_members, has_base. destruct b, (has_time _), (has_vec _); reflexivity.
   Qed.
 
-  Lemma class_dict_to e c :
-    CS.class_dict (to_members e) (name_of_cls c) =
+  Lemma class_dict_to_r e c :
+    CS.class_dict (to_members_r e) (name_of_cls c) =
     if has_base (hdr_of e) (base_of c) then Some (class_obj e c) else None.
   Proof.
-    unfold CS.class_dict. cbn [name_of_cls fst snd]. rewrite jassoc_base.
+    unfold CS.class_dict. cbn [name_of_cls fst snd]. rewrite jassoc_base_r.
     destruct (has_base (hdr_of e) (base_of c)); [|reflexivity]. destruct c; reflexivity.
   Qed.
 
   Lemma top_keys e :
-    map fst (to_members e) =
+    map fst (to_members_r e) =
     name_of_base BGlobal :: (if has_time (hdr_of e) then [name_of_base BTime] else [])
       ++ (if has_vec (hdr_of e) then [name_of_base BVector] else [])
       ++ [PV.K_shape; PV.K_affine; K_reorient; PV.K_slice_dim; PV.K_version].
-  Proof. unfold to_members, base_members. destruct (has_time _), (has_vec _); reflexivity. Qed.
+  Proof. unfold to_members_r, base_members. destruct (has_time _), (has_vec _); reflexivity. Qed.
 
   Lemma in_class_obj e c k v :
     In (k, v) (class_obj e c) <-> exists vs, In (k, (c, vs)) (entries e) /\ v = render c vs.
@@ -90,7 +91,7 @@ Section WithTok.
     - destruct (cls_eqb c' c); [cbn [map jassoc fst snd]; rewrite Ek|]; apply IH, Hnd'.
   Qed.
 
-  Lemma reps_to_content e : reps (to_members e) e.
+  Lemma reps_to_content e : reps (to_members_r e) e.
   Proof.
     constructor.
     - apply jassoc_shape.
@@ -100,12 +101,12 @@ Section WithTok.
       + apply Forall_forall. intros r Hr. apply in_map_iff in Hr as [r0 [<- _]].
         apply Forall_forall. intros v Hv. apply in_map_iff in Hv as [q [<- _]]. reflexivity.
       + rewrite map_map. apply map_ext. intros r. apply map_length.
-    - intros c. unfold CS.class_entry_ok. cbn [name_of_cls fst snd]. rewrite jassoc_base.
+    - intros c. unfold CS.class_entry_ok. cbn [name_of_cls fst snd]. rewrite jassoc_base_r.
       destruct (has_base (hdr_of e) (base_of c)); [|reflexivity]. destruct c; reflexivity.
-    - intros c. rewrite class_dict_to. destruct (has_base (hdr_of e) (base_of c)).
+    - intros c. rewrite class_dict_to_r. destruct (has_base (hdr_of e) (base_of c)).
       + split; [intros _; eexists; reflexivity | reflexivity].
       + split; [discriminate | intros [d Hd]; discriminate].
-    - intros c d Hd k v. rewrite class_dict_to in Hd.
+    - intros c d Hd k v. rewrite class_dict_to_r in Hd.
       destruct (has_base (hdr_of e) (base_of c)); [|discriminate]. injection Hd as <-. apply in_class_obj.
   Qed.
 
@@ -116,26 +117,26 @@ Section WithTok.
     Some [PV.K_affine; K_reorient; PV.K_shape; PV.K_slice_dim; PV.K_version; name_of_base BGlobal].
   Proof. vm_compute. reflexivity. Qed.
 
-  Lemma rule_required_to e : CS.rule_required (to_members e) = true.
+  Lemma rule_required_to e : CS.rule_required (to_members_r e) = true.
   Proof.
     unfold CS.rule_required. rewrite jassoc_version, version_fields_current.
     unfold PV.has_key. cbn [forallb].
     rewrite jassoc_affine, jassoc_reorient, jassoc_shape, jassoc_slice_dim, jassoc_version.
-    rewrite (jassoc_base e BGlobal). reflexivity.
+    rewrite (jassoc_base_r e BGlobal). reflexivity.
   Qed.
 
   (** ** C07 x C10: every valid extension passes the validity check *)
 
   Theorem valid_to_content e :
     valid e ->
-    CM.check_valid (to_content qtok e) = Ok tt /\
-    CS.valid_spec (to_content qtok e) = true /\ CS.wf_domain (to_content qtok e) = true.
+    CM.check_valid (to_content_r qtok reo e) = Ok tt /\
+    CS.valid_spec (to_content_r qtok reo e) = true /\ CS.wf_domain (to_content_r qtok reo e) = true.
   Proof.
-    intros Hv. rewrite to_content_members.
+    intros Hv. rewrite to_content_members_r.
     pose proof (reps_to_content e) as R.
-    assert (Hwf : CS.wf_domain (JObj (to_members e)) = true).
+    assert (Hwf : CS.wf_domain (JObj (to_members_r e)) = true).
     { apply (reps_wf_domain _ e R). apply Hv. }
-    assert (Hs : CS.valid_spec (JObj (to_members e)) = true).
+    assert (Hs : CS.valid_spec (JObj (to_members_r e)) = true).
     { apply CPM.valid_spec_rules. split; [apply rule_required_to | exact (reps_rules _ _ R Hv)]. }
     split; [|split; assumption]. apply (CPM.check_valid_iff_spec _ Hwf). exact Hs.
   Qed.
@@ -163,7 +164,7 @@ Section WithTok.
   Lemma to_content_nodup e :
     storable e ->
     (forall k c vs, In (k, (c, vs)) (entries e) -> class_ok (shape (hdr_of e)) c = true) ->
-    CS.valid_spec (JObj (to_members e)) = true -> NoDup (keys_e e).
+    CS.valid_spec (JObj (to_members_r e)) = true -> NoDup (keys_e e).
   Proof.
     intros [Hbase [Hconst Hcls]] Hcok Hck. pose proof (reps_to_content e) as R.
     apply CPM.valid_spec_rules in Hck as [_ [_ [_ [R4 [_ [_ [_ R8]]]]]]].
@@ -182,7 +183,7 @@ Section WithTok.
       by (apply (in_vcs _ _ Hn); exists c2; split; [reflexivity | apply (Hcok _ _ _ H2)]).
     assert (Hnn : name_of_cls c1 <> name_of_cls c2) by (intros Heq; apply Hne, name_of_cls_inj; exact Heq).
     specialize (R8 _ _ V1 V2 Hnn). unfold CL.disjoint_pair, CS.class_keys_spec in R8.
-    rewrite !class_dict_to, (Hbase _ _ _ H1), (Hbase _ _ _ H2) in R8.
+    rewrite !class_dict_to_r, (Hbase _ _ _ H1), (Hbase _ _ _ H2) in R8.
     assert (Hi : CM.intersects (map fst (class_obj e c1)) (map fst (class_obj e c2)) = true); [|congruence].
     apply CL.intersects_true. exists k. split; apply in_map_iff.
     - exists (k, render c1 vs1). split; [reflexivity|]. apply in_class_obj. exists vs1. split; [exact H1 | reflexivity].
@@ -194,9 +195,9 @@ Section WithTok.
       constant that is not a singleton, and accepts a non-positive extent; see C07_content_valid_refuted. *)
   Theorem to_content_valid_partial e :
     storable e -> hdr_tight (hdr_of e) -> Forall (fun n => 1 <= n) (shape (hdr_of e)) -> nondegenerate e ->
-    CM.check_valid (to_content qtok e) = Ok tt -> valid e.
+    CM.check_valid (to_content_r qtok reo e) = Ok tt -> valid e.
   Proof.
-    intros Hst Ht Hp Hnondeg Hck. rewrite to_content_members in Hck.
+    intros Hst Ht Hp Hnondeg Hck. rewrite to_content_members_r in Hck.
     pose proof (reps_to_content e) as R.
     pose proof (reps_wf_domain _ e R Hp) as Hwf.
     apply (CPM.check_valid_iff_spec _ Hwf) in Hck.
@@ -266,17 +267,35 @@ Section WithTok.
 
   (** keys are distinct and are strings of scalar values, values are well formed, the affine tokens are floats *)
   Theorem wf_to_content e :
-    NoDup (keys_e e) -> ext_wf_json e = true -> aff_toks_ok qtok (hdr_of e) = true -> JM.wf (to_content qtok e).
+    NoDup (keys_e e) -> ext_wf_json e = true -> aff_toks_ok qtok (hdr_of e) = true -> reo_toks_ok qtok reo = true ->
+    JM.wf (to_content_r qtok reo e).
   Proof.
-    intros Hnd Hwf Ha. unfold JM.wf, to_content. cbn [JM.wfb].
-    fold (to_members e). rewrite top_keys. apply andb_true_iff. split.
+    intros Hnd Hwf Ha Hr.
+    assert (Wr : JM.wfb (reo_jv qtok reo) = true) by (destruct reo as [m|]; [apply wfb_aff; exact Hr | reflexivity]). unfold JM.wf, to_content_r. cbn [JM.wfb].
+    fold (to_members_r e). rewrite top_keys. apply andb_true_iff. split.
     - destruct (has_time _), (has_vec _); vm_compute; reflexivity.
-    - unfold to_members. rewrite forallb_app. apply andb_true_iff. split.
+    - unfold to_members_r. rewrite forallb_app. apply andb_true_iff. split.
       + unfold base_members. cbn [forallb fst snd]. rewrite (wfb_base e BGlobal Hnd Hwf).
         rewrite forallb_app. destruct (has_time _), (has_vec _); cbn [forallb fst snd app];
           rewrite ?(wfb_base e BTime Hnd Hwf), ?(wfb_base e BVector Hnd Hwf); reflexivity.
-      + unfold header_members. cbn [forallb fst snd].
-        rewrite wfb_shape, (wfb_aff _ Ha), wfb_version.
+      + unfold header_members_r. cbn [forallb fst snd].
+        rewrite wfb_shape, (wfb_aff _ Ha), Wr, wfb_version.
         destruct (sdim (hdr_of e)); reflexivity.
   Qed.
 End WithTok.
+
+(** * Without a transform: the instances at [reo = None] (names used outside Link) *)
+Definition to_members (qtok : Q -> str) (e : jext) : CS.obj := to_members_r qtok None e.
+
+Lemma to_content_members qtok e : to_content qtok e = JObj (to_members qtok e).
+Proof. reflexivity. Qed.
+
+Lemma jassoc_base qtok e b :
+  jassoc (name_of_base b) (to_members qtok e) = if has_base (hdr_of e) b then Some (base_jv e b) else None.
+Proof. apply jassoc_base_r. Qed.
+
+Lemma class_dict_to qtok e c :
+  CS.class_dict (to_members qtok e) (name_of_cls c) =
+  if has_base (hdr_of e) (base_of c) then Some (class_obj e c) else None.
+Proof. apply class_dict_to_r. Qed.
+
